@@ -5,7 +5,22 @@ import Inkayaku.Gen.LichessSchema
 /-!
 # C19 -- Lichess payload decoding
 
-Part 1: the wire names of the serde schema generated from the Rust source equal the documented names.
+Model: `Inkayaku.Model.Json` (JSON reader / printer of serde_json), `Inkayaku.Model.Lichess` (schema-directed decoder
+with serde's semantics), schema: `Inkayaku.Gen.LichessSchema` (generated from the Rust source by
+`/verif/tools/serde_schema.py`), specification: `Inkayaku.Spec.LichessDoc` (documented names, hand written).
+
+1. `schema_names_documented`   the wire names of the generated schema are the documented ones
+                               (`perf_keys_documented`: the Rust enum accepts two extra keys)
+2. `moves_split` (`_empty`, `_tokens`, `_uci`)   the space separated move string decodes to the move list, in order
+3. `decode_encode`             generic round trip: for every well-formed schema (`WFSchema`, decidable) and every
+                               well-typed value, decoding the wire document gives the value back -- every subset of
+                               optional fields absent or `null`, any strings, any move list; `wf_generated`: the generated
+                               schema is well-formed (kernel `decide`)
+4. `parse_render_json`         the JSON reader inverts the JSON printer (all escapes)
+5. `decode_text_roundtrip`     3 and 4 composed: the printed TEXT of the wire document decodes to the value
+6. instances on the generated schema (`gameState`, `challenge`)
+
+Helper lemmas live in this file because the work order allowed only this file for proofs.
 -/
 namespace Inkayaku.Props.C19
 open Inkayaku.Json Inkayaku.Lichess
@@ -106,7 +121,7 @@ def nameMismatches : List String :=
     | some names => !sameNames names row.2.2
     | none => true).map (·.1)
 
-/-- every type of the schema is compared (PerfKey: see `perf_keys_documented_partial`) -/
+/-- every type of the schema is compared (PerfKey: see `perf_keys_documented`) -/
 def comparedTypes : List String :=
   ["BotGameState", "GameStateHolder", "VariantFull", "Perf", "Player", "Clock", "BotEvent", "GameEventInfo",
    "GameEventStatus", "GameEventVariant", "GameEventOpponent", "Compat", "ChallengeEventInfo", "Challenger",
@@ -125,15 +140,15 @@ theorem schema_names_documented :
 
 example : variantWires schema "BotGameState" "OpponentGone" = some ["type", "gone", "claimWinInSeconds"] := by decide +kernel
 
-/- TARGET (not provable, the Rust model deviates): `enumWires schema "PerfKey"` has the same names as `Doc.perfKeys`.
-   The documented `game.perf` key `horde` has no counterpart in the Rust enum `PerfKey` (a `gameStart` of a Horde game is
-   rejected: "unknown variant `horde`"); the Rust enum has `standard` and `puzzle` in addition, which never arrive. -/
-theorem perf_keys_documented_partial :
+/-- every documented `game.perf` key is accepted by the Rust enum `PerfKey` (before the repair `fix: accept the perf key
+'horde'` the key `horde` was missing and a `gameStart` of a Horde game was rejected); the Rust enum additionally knows
+`standard` and `puzzle`, which never arrive — accepting more than documented does not break decoding. -/
+theorem perf_keys_documented :
     (∀ names, enumWires schema "PerfKey" = some names →
-      (Doc.perfKeys.filter (!names.contains ·)) = ["horde"] ∧ (names.filter (!Doc.perfKeys.contains ·)) = ["standard", "puzzle"]) := by
+      (Doc.perfKeys.filter (!names.contains ·)) = [] ∧ (names.filter (!Doc.perfKeys.contains ·)) = ["standard", "puzzle"]) := by
   decide +kernel
 
-#print axioms perf_keys_documented_partial
+#print axioms perf_keys_documented
 
 /-! ## 2. `moves_split` -/
 
@@ -1354,6 +1369,655 @@ theorem parse_renderStr (s rest : List Char) :
   have := escapeChars_length s
   simp only [List.length_append, List.length_cons]
   omega
+
+/-! ### Values -/
+
+theorem JVal.induct' {P : JVal → Prop} (null : P .null) (bool : ∀ b, P (.bool b)) (num : ∀ s n, P (.num s n))
+    (float : P .float) (str : ∀ e s, P (.str e s))
+    (arr : ∀ xs, (∀ x ∈ xs, P x) → P (.arr xs))
+    (obj : ∀ kvs, (∀ p ∈ kvs, P p.2) → P (.obj kvs)) : ∀ v, P v := by
+  intro v
+  refine JVal.rec (motive_1 := P) (motive_2 := fun xs => ∀ x ∈ xs, P x) (motive_3 := fun kvs => ∀ p ∈ kvs, P p.2)
+    (motive_4 := fun p => P p.2) null bool num float str arr obj ?_ ?_ ?_ ?_ ?_ v
+  · intro x hx; cases hx
+  · intro head tail h1 h2 x hx
+    cases hx with
+    | head => exact h1
+    | tail _ h => exact h2 x h
+  · intro p hp; cases hp
+  · intro head tail h1 h2 p hp
+    cases hp with
+    | head => exact h1
+    | tail _ h => exact h2 p h
+  · intro fst snd h; exact h
+
+mutual
+/-- values the theorem speaks about: no floats, integers below the `f64` overflow threshold (larger literals are
+"number out of range" for serde_json), string flags as the reader computes them -/
+def good : JVal → Bool
+  | .null => true
+  | .bool _ => true
+  | .num _ n => decide (n < f64Overflow)
+  | .float => false
+  | .str e s => e == s.any needsEscape
+  | .arr xs => goodList xs
+  | .obj kvs => goodMembers kvs
+def goodList : List JVal → Bool
+  | [] => true
+  | x :: xs => good x && goodList xs
+def goodMembers : List (List Char × JVal) → Bool
+  | [] => true
+  | (_, v) :: kvs => good v && goodMembers kvs
+end
+
+mutual
+/-- nesting depth of arrays / objects -/
+def depth : JVal → Nat
+  | .arr xs => 1 + depthList xs
+  | .obj kvs => 1 + depthMembers kvs
+  | _ => 0
+def depthList : List JVal → Nat
+  | [] => 0
+  | x :: xs => max (depth x) (depthList xs)
+def depthMembers : List (List Char × JVal) → Nat
+  | [] => 0
+  | (_, v) :: kvs => max (depth v) (depthMembers kvs)
+end
+
+mutual
+/-- recursion fuel the reader needs -/
+def cost : JVal → Nat
+  | .arr xs => 1 + costList xs
+  | .obj kvs => 1 + costMembers kvs
+  | _ => 1
+def costList : List JVal → Nat
+  | [] => 0
+  | x :: xs => 1 + cost x + costList xs
+def costMembers : List (List Char × JVal) → Nat
+  | [] => 0
+  | (_, v) :: kvs => 1 + cost v + costMembers kvs
+end
+
+/-- reading back one printed value -/
+def PR (v : JVal) : Prop :=
+  ∀ (fuel d : Nat) (rest : List Char), good v = true → cost v ≤ fuel → depth v < d → Delim rest →
+    parseValue fuel d (render v ++ rest) = some (v, rest)
+
+theorem digit_facts {c : Char} (h : isDigit c = true) :
+    isWs c = false ∧ ¬ c = '"' ∧ ¬ c = '[' ∧ ¬ c = '{' ∧ ¬ c = '-' := by
+  refine ⟨?_, ?_, ?_, ?_, ?_⟩
+  · simp only [isDigit, Bool.and_eq_true, decide_eq_true_eq] at h
+    simp only [isWs, Bool.or_eq_false_iff, beq_eq_false_iff_ne, ne_eq]
+    refine ⟨⟨⟨?_, ?_⟩, ?_⟩, ?_⟩ <;> (intro e; subst e; simp at h)
+  all_goals (intro e; subst e; simp [isDigit] at h)
+
+/-- the first character of a printed value: not white space, not a closing bracket -/
+theorem render_head (v : JVal) (hg : good v = true) :
+    ∃ c r, render v = c :: r ∧ isWs c = false ∧ ¬ c = ']' ∧ ¬ c = '}' := by
+  cases v with
+  | null => exact ⟨'n', _, rfl, by decide, by decide, by decide⟩
+  | bool b => cases b <;> exact ⟨_, _, rfl, by decide, by decide, by decide⟩
+  | num neg n =>
+    cases neg with
+    | true => exact ⟨'-', natDigits n, by simp [render], by decide, by decide, by decide⟩
+    | false =>
+      cases hd : natDigits n with
+      | nil => exact absurd hd (natDigits_ne_nil n)
+      | cons c r =>
+        have hdig := natDigits_all_digit n c (by simp [hd])
+        refine ⟨c, r, by simp [render, hd], (digit_facts hdig).1, ?_, ?_⟩ <;>
+          (intro e; subst e; simp [isDigit] at hdig)
+  | float => simp [good] at hg
+  | str e s => exact ⟨'"', _, rfl, by decide, by decide, by decide⟩
+  | arr xs => cases xs <;> exact ⟨'[', _, rfl, by decide, by decide, by decide⟩
+  | obj kvs =>
+    cases kvs with
+    | nil => exact ⟨'{', _, rfl, by decide, by decide, by decide⟩
+    | cons p kvs => obtain ⟨k, v⟩ := p; exact ⟨'{', _, rfl, by decide, by decide, by decide⟩
+
+theorem skipWs_of_not_ws {c : Char} {cs : List Char} (h : isWs c = false) : skipWs (c :: cs) = c :: cs := by
+  simp [skipWs, h]
+
+theorem delim_renderTail (xs : List JVal) (rest : List Char) : Delim (renderTail xs ++ rest) := by
+  cases xs with
+  | nil => exact Or.inr ⟨rest, Or.inr (Or.inl rfl)⟩
+  | cons x xs => exact Or.inr ⟨_, Or.inl (by simp [renderTail]; rfl)⟩
+
+theorem delim_renderMembersTail (kvs : List (List Char × JVal)) (rest : List Char) :
+    Delim (renderMembersTail kvs ++ rest) := by
+  cases kvs with
+  | nil => exact Or.inr ⟨rest, Or.inr (Or.inr rfl)⟩
+  | cons p kvs => obtain ⟨k, v⟩ := p; exact Or.inr ⟨_, Or.inl (by simp [renderMembersTail]; rfl)⟩
+
+theorem pr_null : PR .null := by
+  intro fuel d rest _ hc _ _
+  obtain ⟨f, rfl⟩ : ∃ f, fuel = f + 1 := ⟨fuel - 1, by simp [cost] at hc; omega⟩
+  simp [render, parseValue, skipWs, isWs, isDigit]
+
+theorem pr_bool (b : Bool) : PR (.bool b) := by
+  intro fuel d rest _ hc _ _
+  obtain ⟨f, rfl⟩ : ∃ f, fuel = f + 1 := ⟨fuel - 1, by simp [cost] at hc; omega⟩
+  cases b <;> simp [render, parseValue, skipWs, isWs, isDigit]
+
+theorem pr_num (neg : Bool) (n : Nat) : PR (.num neg n) := by
+  intro fuel d rest hg hc _ hd
+  obtain ⟨f, rfl⟩ : ∃ f, fuel = f + 1 := ⟨fuel - 1, by simp [cost] at hc; omega⟩
+  simp only [good, decide_eq_true_eq] at hg
+  cases neg with
+  | true =>
+    simp only [render, if_true, List.cons_append, parseValue]
+    rw [skipWs_of_not_ws (by decide)]
+    simp [parseNumber_natDigits true n rest hg hd]
+  | false =>
+    have hnum := parseNumber_natDigits false n rest hg hd
+    cases hnd : natDigits n with
+    | nil => exact absurd hnd (natDigits_ne_nil n)
+    | cons c r =>
+      have hdig := natDigits_all_digit n c (by simp [hnd])
+      obtain ⟨h1, h2, h3, h4, h5⟩ := digit_facts hdig
+      rw [hnd] at hnum
+      simp only [render, Bool.false_eq_true, if_false, hnd, List.cons_append, parseValue]
+      rw [skipWs_of_not_ws h1]
+      simp only [h2, h3, h4, h5, if_false, hdig, if_true]
+      exact hnum
+
+theorem pr_str (e : Bool) (s : List Char) : PR (.str e s) := by
+  intro fuel d rest hg hc _ _
+  obtain ⟨f, rfl⟩ : ∃ f, fuel = f + 1 := ⟨fuel - 1, by simp [cost] at hc; omega⟩
+  simp only [good, beq_iff_eq] at hg
+  subst hg
+  have := parse_renderStr s rest
+  have e : render (.str (s.any needsEscape) s) ++ rest = '"' :: (escapeChars s ++ '"' :: rest) := by
+    simp [render, renderStr]
+  rw [e]
+  simp only [parseValue]
+  rw [skipWs_of_not_ws (by decide)]
+  simp only [if_true]
+  rw [this]
+
+/-- elements after the opening bracket -/
+theorem pr_elems (d : Nat) (rest : List Char) :
+    ∀ (xs : List JVal) (x : JVal), PR x → (∀ y ∈ xs, PR y) → ∀ (fuel : Nat), good x = true → goodList xs = true →
+      1 + cost x + costList xs ≤ fuel → depth x < d → depthList xs < d →
+      parseElems fuel d (render x ++ (renderTail xs ++ rest)) = some (x :: xs, rest)
+  | [], x, hx, _, fuel, hgx, _, hc, hdx, _ => by
+    obtain ⟨f, rfl⟩ : ∃ f, fuel = f + 1 := ⟨fuel - 1, by omega⟩
+    have := hx f d (renderTail [] ++ rest) hgx (by simp [costList] at hc; omega) hdx (delim_renderTail [] rest)
+    simp only [renderTail, List.cons_append, List.nil_append] at this ⊢
+    simp only [parseElems, this]
+    rw [skipWs_of_not_ws (by decide)]
+    simp
+  | y :: ys, x, hx, hys, fuel, hgx, hgl, hc, hdx, hdl => by
+    obtain ⟨f, rfl⟩ : ∃ f, fuel = f + 1 := ⟨fuel - 1, by omega⟩
+    simp only [goodList, Bool.and_eq_true] at hgl
+    simp only [costList] at hc
+    simp only [depthList] at hdl
+    have h1 := hx f d (renderTail (y :: ys) ++ rest) hgx (by omega) hdx (delim_renderTail (y :: ys) rest)
+    have h2 := pr_elems d rest ys y (hys y List.mem_cons_self) (fun z hz => hys z (List.mem_cons_of_mem _ hz)) f
+      hgl.1 hgl.2 (by omega) (by omega) (by omega)
+    simp only [renderTail, List.cons_append, List.append_assoc] at h1 ⊢
+    simp only [parseElems, h1]
+    rw [skipWs_of_not_ws (by decide)]
+    simp only [h2]
+
+theorem pr_arr (xs : List JVal) (ih : ∀ x ∈ xs, PR x) : PR (.arr xs) := by
+  intro fuel d rest hg hc hd _
+  obtain ⟨f, rfl⟩ : ∃ f, fuel = f + 1 := ⟨fuel - 1, by simp [cost] at hc; omega⟩
+  have hd1 : ¬ d ≤ 1 := by simp only [depth] at hd; omega
+  cases xs with
+  | nil =>
+    simp only [render, List.cons_append, List.nil_append, parseValue]
+    rw [skipWs_of_not_ws (by decide)]
+    simp only [show ¬ '[' = '"' by decide, if_false, if_true, hd1]
+    rw [skipWs_of_not_ws (by decide)]
+    simp
+  | cons x xs =>
+    simp only [good, goodList, Bool.and_eq_true] at hg
+    simp only [cost, costList] at hc
+    simp only [depth, depthList] at hd
+    obtain ⟨c, r, hr, hws, hnb, _⟩ := render_head x hg.1
+    have h := pr_elems (d - 1) rest xs x (ih x List.mem_cons_self) (fun z hz => ih z (List.mem_cons_of_mem _ hz)) f
+      hg.1 hg.2 (by omega) (by omega) (by omega)
+    simp only [render, List.cons_append, List.append_assoc, parseValue]
+    rw [skipWs_of_not_ws (by decide)]
+    simp only [show ¬ '[' = '"' by decide, if_false, if_true, hd1]
+    rw [h]
+    rw [hr, List.cons_append, skipWs_of_not_ws hws]
+    split
+    · rename_i heq
+      simp only [List.cons.injEq] at heq
+      exact absurd heq.1 hnb
+    · rfl
+
+/-- members after the opening brace -/
+theorem pr_members (d : Nat) (rest : List Char) :
+    ∀ (kvs : List (List Char × JVal)) (k : List Char) (v : JVal), PR v → (∀ p ∈ kvs, PR p.2) → ∀ (fuel : Nat),
+      good v = true → goodMembers kvs = true → 1 + cost v + costMembers kvs ≤ fuel → depth v < d → depthMembers kvs < d →
+      parseMembers fuel d (renderStr k ++ ':' :: (render v ++ (renderMembersTail kvs ++ rest))) = some ((k, v) :: kvs, rest)
+  | [], k, v, hv, _, fuel, hgv, _, hc, hdv, _ => by
+    obtain ⟨f, rfl⟩ : ∃ f, fuel = f + 1 := ⟨fuel - 1, by omega⟩
+    have h1 := hv f d (renderMembersTail [] ++ rest) hgv (by simp [costMembers] at hc; omega) hdv
+      (delim_renderMembersTail [] rest)
+    have hs := parse_renderStr k (':' :: (render v ++ (renderMembersTail [] ++ rest)))
+    simp only [renderMembersTail, List.cons_append, List.nil_append] at h1 hs ⊢
+    simp only [parseMembers, renderStr, List.cons_append, List.append_assoc, List.nil_append]
+    rw [skipWs_of_not_ws (by decide)]
+    simp only [hs]
+    rw [skipWs_of_not_ws (by decide)]
+    simp only [h1]
+    rw [skipWs_of_not_ws (by decide)]
+    simp
+  | (k', v') :: kvs, k, v, hv, hkvs, fuel, hgv, hgl, hc, hdv, hdl => by
+    obtain ⟨f, rfl⟩ : ∃ f, fuel = f + 1 := ⟨fuel - 1, by omega⟩
+    simp only [goodMembers, Bool.and_eq_true] at hgl
+    simp only [costMembers] at hc
+    simp only [depthMembers] at hdl
+    have h1 := hv f d (renderMembersTail ((k', v') :: kvs) ++ rest) hgv (by omega) hdv
+      (delim_renderMembersTail ((k', v') :: kvs) rest)
+    have h2 := pr_members d rest kvs k' v' (hkvs (k', v') List.mem_cons_self)
+      (fun z hz => hkvs z (List.mem_cons_of_mem _ hz)) f hgl.1 hgl.2 (by omega) (by omega) (by omega)
+    have hs := parse_renderStr k (':' :: (render v ++ (renderMembersTail ((k', v') :: kvs) ++ rest)))
+    simp only [renderMembersTail, renderStr, List.cons_append, List.append_assoc, List.nil_append] at h1 hs ⊢
+    simp only [parseMembers]
+    rw [skipWs_of_not_ws (by decide)]
+    simp only [hs]
+    rw [skipWs_of_not_ws (by decide)]
+    simp only [h1]
+    rw [skipWs_of_not_ws (by decide)]
+    simp only [renderStr, List.cons_append, List.append_assoc, List.nil_append] at h2
+    simp only [h2]
+
+theorem pr_obj (kvs : List (List Char × JVal)) (ih : ∀ p ∈ kvs, PR p.2) : PR (.obj kvs) := by
+  intro fuel d rest hg hc hd _
+  obtain ⟨f, rfl⟩ : ∃ f, fuel = f + 1 := ⟨fuel - 1, by simp [cost] at hc; omega⟩
+  have hd1 : ¬ d ≤ 1 := by simp only [depth] at hd; omega
+  cases kvs with
+  | nil =>
+    simp only [render, List.cons_append, List.nil_append, parseValue]
+    rw [skipWs_of_not_ws (by decide)]
+    simp only [show ¬ '{' = '"' by decide, show ¬ '{' = '[' by decide, if_false, if_true, hd1]
+    rw [skipWs_of_not_ws (by decide)]
+    simp
+  | cons p kvs =>
+    obtain ⟨k, v⟩ := p
+    simp only [good, goodMembers, Bool.and_eq_true] at hg
+    simp only [cost, costMembers] at hc
+    simp only [depth, depthMembers] at hd
+    have h := pr_members (d - 1) rest kvs k v (ih (k, v) List.mem_cons_self)
+      (fun z hz => ih z (List.mem_cons_of_mem _ hz)) f hg.1 hg.2 (by omega) (by omega) (by omega)
+    simp only [render, List.cons_append, List.append_assoc, parseValue]
+    rw [skipWs_of_not_ws (by decide)]
+    simp only [show ¬ '{' = '"' by decide, show ¬ '{' = '[' by decide, if_false, if_true, hd1]
+    rw [h]
+    simp only [renderStr, List.cons_append]
+    rw [skipWs_of_not_ws (by decide)]
+    simp
+
+theorem pr_float : PR .float := by
+  intro fuel d rest hg
+  simp [good] at hg
+
+theorem parseValue_render : ∀ v, PR v :=
+  JVal.induct' pr_null pr_bool pr_num pr_float pr_str pr_arr pr_obj
+
+/-! ### Fuel bound and the theorem -/
+
+theorem renderStr_length (s : List Char) : 2 ≤ (renderStr s).length := by
+  simp [renderStr]
+
+theorem costList_le (xs : List JVal) (h : ∀ x ∈ xs, cost x ≤ 2 * (render x).length) :
+    costList xs + 1 ≤ 2 * (renderTail xs).length := by
+  induction xs with
+  | nil => simp [costList, renderTail]
+  | cons y ys ih =>
+    have h1 := h y List.mem_cons_self
+    have h2 := ih (fun x hx => h x (List.mem_cons_of_mem _ hx))
+    simp only [costList, renderTail, List.length_cons, List.length_append]
+    omega
+
+theorem costMembers_le (kvs : List (List Char × JVal)) (h : ∀ p ∈ kvs, cost p.2 ≤ 2 * (render p.2).length) :
+    costMembers kvs + 1 ≤ 2 * (renderMembersTail kvs).length := by
+  induction kvs with
+  | nil => simp [costMembers, renderMembersTail]
+  | cons p kvs ih =>
+    obtain ⟨k, v⟩ := p
+    have h1 := h (k, v) List.mem_cons_self
+    have h2 := ih (fun x hx => h x (List.mem_cons_of_mem _ hx))
+    simp only [costMembers, renderMembersTail, List.length_cons, List.length_append]
+    simp only at h1
+    omega
+
+theorem cost_le : ∀ v, cost v ≤ 2 * (render v).length := by
+  apply JVal.induct'
+  · simp [cost, render]
+  · intro b; cases b <;> simp [cost, render]
+  · intro s n
+    have : 1 ≤ (natDigits n).length := by
+      cases h : natDigits n with
+      | nil => exact absurd h (natDigits_ne_nil n)
+      | cons _ _ => simp
+    cases s <;> simp [cost, render] <;> omega
+  · simp [cost, render]
+  · intro e s
+    have := renderStr_length s
+    simp only [cost, render]
+    omega
+  · intro xs ih
+    cases xs with
+    | nil => simp [cost, render, costList]
+    | cons x xs =>
+      have h1 := ih x List.mem_cons_self
+      have h2 := costList_le xs (fun y hy => ih y (List.mem_cons_of_mem _ hy))
+      simp only [cost, costList, render, List.length_cons, List.length_append]
+      omega
+  · intro kvs ih
+    cases kvs with
+    | nil => simp [cost, render, costMembers]
+    | cons p kvs =>
+      obtain ⟨k, v⟩ := p
+      have h1 := ih (k, v) List.mem_cons_self
+      have h2 := costMembers_le kvs (fun y hy => ih y (List.mem_cons_of_mem _ hy))
+      simp only [cost, costMembers, render, List.length_cons, List.length_append]
+      simp only at h1
+      omega
+
+theorem parsePrefix_render (v : JVal) (hg : good v = true) (hd : depth v < maxDepth) (rest : List Char)
+    (hr : Delim rest) : parsePrefix (render v ++ rest) = some (v, rest) := by
+  unfold parsePrefix
+  apply parseValue_render v _ _ _ hg _ hd hr
+  have := cost_le v
+  simp only [List.length_append]
+  omega
+
+/-- **C19 (JSON).**  Reading back what `serde_json::to_string` prints gives the same value tree: all escapes
+(`\"`, `\\`, `\b \f \n \r \t`, `\u00xx`) round-trip, every other character -- DEL and all of Unicode included -- is
+verbatim, integers of any size below the `f64` overflow threshold, arrays and objects nested less than 128 deep
+(serde_json's recursion limit), duplicate keys kept in order.  `good` excludes float literals (their value is not
+modelled) and asks that a string node carries the escape flag the reader would compute. -/
+theorem parse_render_json (v : JVal) (hg : good v = true) (hd : depth v < 128) : parseJson (render v) = some v := by
+  have := parsePrefix_render v hg hd [] (Or.inl rfl)
+  simp only [List.append_nil] at this
+  simp [parseJson, this, onlyWs, skipWs]
+
+#print axioms parse_render_json
+
+/-- the hypotheses are satisfiable by a value with every kind of node and every kind of escape -/
+example :
+    let v : JVal := .obj [("a\"b".toList, .arr [.num true 0, .num false 18446744073709551616, .null, .bool true, .arr [], .obj []]),
+      ("a\"b".toList, .str true ("q\"b\\s/\n\t" ++ String.singleton (Char.ofNat 1) ++ String.singleton (Char.ofNat 127) ++ "é😀").toList),
+      ([], .str false "plain".toList)]
+    good v = true ∧ depth v < 128 ∧ parseJson (render v) = some v := by
+  refine ⟨by decide +kernel, by decide +kernel, parse_render_json _ (by decide +kernel) (by decide +kernel)⟩
+
+/-! ## 5. End to end: the TEXT of a document of the documented shape decodes to the value -/
+
+theorem f64_big : 2 ^ 64 < f64Overflow := by decide +kernel
+
+theorem goodMembers_append (a b : List (List Char × JVal)) : goodMembers (a ++ b) = (goodMembers a && goodMembers b) := by
+  induction a with
+  | nil => simp [goodMembers]
+  | cons p a ih => obtain ⟨k, v⟩ := p; simp [goodMembers, ih, Bool.and_assoc]
+
+theorem good_jstr (s : List Char) : good (jstr s) = true := by simp [jstr, good]
+
+/-- the encoder produces values the JSON theorem applies to -/
+def GW (t : Ty) : Prop :=
+  ∀ (v : DVal) (absent : List String → Bool) (path : List String), wt t v = true → good (wireEncode absent path t v) = true
+
+theorem gw_field {fi : FieldInfo} {t : Ty} {v : DVal} (absent : List String → Bool) (path : List String) (h : GW t)
+    (hv : ((fi.default && emptyRules t v) || wt t v) = true) : good (wireEncode absent path t v) = true := by
+  rcases Bool.or_eq_true_iff.mp hv with h' | h'
+  · simp only [Bool.and_eq_true] at h'
+    cases t <;> cases v <;> simp [emptyRules] at h'
+    simp only [wireEncode]
+    exact good_jstr _
+  · exact h v absent path h'
+
+theorem gw_fields (absent : List String → Bool) :
+    ∀ (fs : List (FieldInfo × Ty)) (vals : List DVal) (path : List String), (∀ p ∈ fs, GW p.2) → wtFields fs vals = true →
+      goodMembers (wireFields absent path fs vals) = true
+  | [], _, _, _, _ => by simp [wireFields, goodMembers]
+  | _ :: _, [], _, _, _ => by simp [wireFields, goodMembers]
+  | (fi, t) :: rest, v :: vals, path, ih, hwt => by
+    simp only [wtFields, Bool.and_eq_true] at hwt
+    have hg := gw_field absent (fi.rust :: path) (ih (fi, t) List.mem_cons_self) hwt.1
+    have hrest := gw_fields absent rest vals path (fun p hp => ih p (List.mem_cons_of_mem _ hp)) hwt.2
+    rw [wireFields_cons, goodMembers_append, hrest, Bool.and_true]
+    split
+    · split
+      · rename_i es heq
+        rw [heq] at hg
+        simpa [good] using hg
+      · simp [goodMembers]
+    · split
+      · simp [goodMembers]
+      · simp [goodMembers, hg]
+
+theorem good_wireEncode : ∀ (t : Ty), GW t := by
+  have hbig := f64_big
+  apply Ty.induct'
+  · intro v absent path hv
+    cases v <;> simp [wt] at hv
+    simp only [wireEncode, good, decide_eq_true_eq]; omega
+  · intro v absent path hv
+    cases v <;> simp [wt] at hv
+    simp only [wireEncode, good, decide_eq_true_eq]; omega
+  · intro v absent path hv
+    cases v <;> simp [wt] at hv
+    simp only [wireEncode, encodeI32, good, decide_eq_true_eq]; omega
+  · intro v absent path hv
+    cases v <;> simp [wt] at hv
+    simp [wireEncode, good]
+  · intro v absent path hv
+    cases v <;> simp [wt] at hv
+    simp only [wireEncode]; exact good_jstr _
+  · intro v absent path hv
+    cases v <;> simp only [wt, Bool.false_eq_true] at hv
+    simp only [wireEncode]; exact good_jstr _
+  · intro a b v absent path hv
+    cases v <;> simp only [wt, Bool.false_eq_true] at hv
+    simp only [wireEncode]; exact good_jstr _
+  · intro t ih v absent path hv
+    cases v <;> simp only [wt, Bool.false_eq_true] at hv
+    · simp [wireEncode, good]
+    · simp only [wireEncode]; exact ih _ absent path hv
+  · intro vs v absent path hv
+    cases v <;> simp only [wt, Bool.false_eq_true] at hv
+    simp only [wireEncode]; exact good_jstr _
+  · intro fs ih v absent path hv
+    cases v <;> simp only [wt, Bool.false_eq_true] at hv
+    simp only [wireEncode, good]
+    exact gw_fields absent fs _ path ih hv
+  · intro tag vs ih v absent path hv
+    cases v <;> simp only [wt, Bool.false_eq_true] at hv
+    obtain ⟨vi, fs, hpick, hmem, _, hwtf⟩ := pick_of_wt hv
+    simp only [wireEncode, good, wireVariant_of_pick absent tag path hpick, goodMembers, good_jstr, Bool.true_and]
+    exact gw_fields absent fs _ _ (ih _ hmem) hwtf
+
+mutual
+/-- nesting depth of the documents of a type -/
+def tyDepth : Ty → Nat
+  | .opt t => tyDepth t
+  | .struct fs => 1 + fieldsDepth fs
+  | .tagged _ vs => 1 + variantsDepth vs
+  | _ => 0
+def fieldsDepth : List (FieldInfo × Ty) → Nat
+  | [] => 0
+  | (_, t) :: rest => max (tyDepth t) (fieldsDepth rest)
+def variantsDepth : List (VariantInfo × List (FieldInfo × Ty)) → Nat
+  | [] => 0
+  | (_, fs) :: rest => max (fieldsDepth fs) (variantsDepth rest)
+end
+
+theorem depthMembers_append (a b : List (List Char × JVal)) :
+    depthMembers (a ++ b) = max (depthMembers a) (depthMembers b) := by
+  induction a with
+  | nil => simp [depthMembers]
+  | cons p a ih => obtain ⟨k, v⟩ := p; simp [depthMembers, ih, Nat.max_assoc]
+
+def DW (t : Ty) : Prop :=
+  ∀ (v : DVal) (absent : List String → Bool) (path : List String), depth (wireEncode absent path t v) ≤ tyDepth t
+
+theorem dw_fields (absent : List String → Bool) :
+    ∀ (fs : List (FieldInfo × Ty)) (vals : List DVal) (path : List String), (∀ p ∈ fs, DW p.2) →
+      depthMembers (wireFields absent path fs vals) ≤ fieldsDepth fs
+  | [], _, _, _ => by simp [wireFields, depthMembers]
+  | _ :: _, [], _, _ => by simp [wireFields, depthMembers]
+  | (fi, t) :: rest, v :: vals, path, ih => by
+    have hd := ih (fi, t) List.mem_cons_self v absent (fi.rust :: path)
+    have hrest := dw_fields absent rest vals path (fun p hp => ih p (List.mem_cons_of_mem _ hp))
+    rw [wireFields_cons, depthMembers_append]
+    simp only [fieldsDepth]
+    simp only at hd
+    refine Nat.max_le.mpr ⟨Nat.le_trans ?_ (Nat.le_max_left _ _), Nat.le_trans hrest (Nat.le_max_right _ _)⟩
+    split
+    · split
+      · rename_i es heq
+        rw [heq] at hd
+        simp only [depth] at hd
+        omega
+      · simp [depthMembers]
+    · split
+      · simp [depthMembers]
+      · simp only [depthMembers]; omega
+
+theorem dw_variants (absent : List String → Bool) (tag : Key) (r : String) (vals : List DVal) :
+    ∀ (vs : List (VariantInfo × List (FieldInfo × Ty))) (path : List String), (∀ q ∈ vs, ∀ p ∈ q.2, DW p.2) →
+      depthMembers (wireVariant absent tag path vs r vals) ≤ variantsDepth vs
+  | [], _, _ => by simp [wireVariant, depthMembers]
+  | (vi, fs) :: rest, path, ih => by
+    have h1 := dw_fields absent fs vals (vi.rust :: path) (ih (vi, fs) List.mem_cons_self)
+    have h2 := dw_variants absent tag r vals rest path (fun q hq => ih q (List.mem_cons_of_mem _ hq))
+    simp only [wireVariant, variantsDepth]
+    split
+    · simp only [depthMembers, jstr, depth]; omega
+    · omega
+
+theorem depth_wireEncode : ∀ (t : Ty), DW t := by
+  apply Ty.induct'
+  case opt =>
+    intro t ih v absent path
+    cases v <;> simp only [wireEncode, tyDepth, depth, Nat.zero_le]
+    exact ih _ absent path
+  case struct =>
+    intro fs ih v absent path
+    cases v <;> simp only [wireEncode, tyDepth, depth, Nat.zero_le]
+    rename_i vals
+    have := dw_fields absent fs vals path ih
+    omega
+  case tagged =>
+    intro tag vs ih v absent path
+    cases v <;> simp only [wireEncode, tyDepth, depth, Nat.zero_le]
+    rename_i r vals
+    have := dw_variants absent tag r vals vs path ih
+    omega
+  all_goals
+    intros
+    intro v absent path
+    cases v <;> simp [wireEncode, depth, jstr, encodeI32]
+
+/-- **C19 (end to end, type trees).**  The printed text of a document of the documented shape decodes to the value:
+`serde_json::from_str` (text → `Content` → typed value → `Deserializer::end`) on `to_string` of the wire document. -/
+theorem decodeText_render_wireEncode (t : Ty) (hwf : wfTy t = true) (hd : tyDepth t < 128) (v : DVal)
+    (hv : wt t v = true) (absent : List String → Bool) :
+    decodeText t (render (wireEncode absent [] t v)) = .ok v := by
+  have hp := parsePrefix_render (wireEncode absent [] t v) (good_wireEncode t v absent [] hv)
+    (Nat.lt_of_le_of_lt (depth_wireEncode t v absent []) hd) [] (Or.inl rfl)
+  simp only [List.append_nil] at hp
+  have hdec := decodeTy_wireEncode t v absent [] hwf hv
+  simp [decodeText, hp, decodeRoot, numericTag_wireEncode absent [] t v hwf hv, hdec, onlyWs, skipWs]
+
+#print axioms decodeText_render_wireEncode
+
+/-- **C19 (end to end).**  For every well-formed schema, every named type of it, every well-typed value and every
+choice of absent optional fields, `serde_json::from_str` of the printed wire document yields the value. -/
+theorem decode_text_roundtrip (σ : List TypeDef) (rules : List (String × String)) (hσ : WFSchema σ rules)
+    (name : String) (hname : name ∈ σ.map (·.name)) (t : Ty) (ht : resolve σ rules name = some t) (hd : tyDepth t < 128)
+    (v : DVal) (hv : wt t v = true) (absent : List String → Bool) :
+    decodeText t (render (wireEncode absent [] t v)) = .ok v := by
+  obtain ⟨td, htd, rfl⟩ := List.mem_map.mp hname
+  have h := List.all_eq_true.mp hσ td htd
+  simp only [ht] at h
+  exact decodeText_render_wireEncode t h hd v hv absent
+
+#print axioms decode_text_roundtrip
+
+/-! ## 6. The generated schema: instances -/
+
+/-- both message types unfold, are well-formed and nest less deep than serde_json's recursion limit -/
+theorem generated_roots :
+    (genResolve "BotGameState").any (fun t => wfTy t && decide (tyDepth t < 128)) = true ∧
+    (genResolve "BotEvent").any (fun t => wfTy t && decide (tyDepth t < 128)) = true := by
+  decide +kernel
+
+/-- a `gameState` message: castling, a promotion, some optional fields present and some not -/
+def exGameState : DVal :=
+  .variant "GameState" [.struct [.strs ["e2e4".toList, "e7e5".toList, "e1g1".toList, "a7a8q".toList], .nat 7598040,
+    .nat 8395220, .nat 10000, .nat 10000, .enumv "Started", .none, .some (.bool false), .none, .none,
+    .some (.enumv "White"), .none]]
+
+/-- a `challenge` message: nested objects, a string with escapes, a nested internally tagged enum, rules -/
+def exChallenge : DVal :=
+  .variant "Challenge" [
+    .struct [.str "7pGLxJ4F".toList, .str "https://lichess.org/7pGLxJ4F".toList, .enumv "Created",
+      .some (.struct [.str "lovlas".toList, .str "Lov \"las\"\n".toList, .some (.str "IM".toList), .nat 2506, .none,
+        .some (.bool true), .none, .some (.nat 24)]),
+      .none, .struct [.enumv "Standard", .str "Standard".toList, .str "Std".toList], .bool true, .enumv "Rapid",
+      .variant "Clock" [.nat 300, .nat 25, .str "5+25".toList], .enumv "Random", .enumv "White",
+      .struct [.str "#".toList, .str "Rapid".toList], .none, .some (.enumv "In"), .none, .none,
+      .rules ["NoAbort", "NoClaimWin"]],
+    .some (.struct [.bool true, .bool false])]
+
+/-- the hypotheses of `decode_encode` / `decode_text_roundtrip` hold for these values -/
+theorem examples_wellTyped :
+    (genResolve "BotGameState").any (fun t => wt t exGameState) = true ∧
+    (genResolve "BotEvent").any (fun t => wt t exChallenge) = true := by
+  decide +kernel
+
+/-- what the documents look like (all `None` fields left out / all written as `null`) -/
+example : (genResolve "BotGameState").map (fun t => String.ofList (render (wireEncode (fun _ => true) [] t exGameState)))
+    = some "{\"type\":\"gameState\",\"moves\":\"e2e4 e7e5 e1g1 a7a8q\",\"wtime\":7598040,\"btime\":8395220,\"winc\":10000,\"binc\":10000,\"status\":\"started\",\"bdraw\":false,\"winner\":\"white\"}" := by
+  decide +kernel
+
+/- The `challenge` document with every `None` written as `null` (`#eval`; comparing a 700 character string literal in the
+   kernel takes ~40 s, so it is not re-checked here):
+   {"type":"challenge","challenge":{"id":"7pGLxJ4F","url":"https://lichess.org/7pGLxJ4F","status":"created",
+    "challenger":{"id":"lovlas","name":"Lov \"las\"\n","title":"IM","rating":2506,"provisional":null,"patron":true,
+    "online":null,"lag":24},"destUser":null,"variant":{"key":"standard","name":"Standard","short":"Std"},"rated":true,
+    "speed":"rapid","timeControl":{"type":"clock","limit":300,"increment":25,"show":"5+25"},"color":"random",
+    "finalColor":"white","perf":{"icon":"#","name":"Rapid"},"rematchOf":null,"direction":"in","initialFen":null,
+    "declineReason":null,"rules":"noAbort,noClaimWin"},"compat":{"bot":true,"board":false}} -/
+example : (genResolve "BotEvent").map (fun t => (render (wireEncode (fun _ => false) [] t exChallenge)).length) = some 630 := by
+  decide +kernel
+
+/-- `decode_encode` and `decode_text_roundtrip` applied: whatever subset of the `None` fields is left out, the text of
+the `gameState` document decodes to the value, moves in order -/
+example (absent : List String → Bool) (t : Ty) (ht : genResolve "BotGameState" = some t) :
+    decode schema csvRuleTable "BotGameState" (wireEncode absent [] t exGameState) = .ok exGameState ∧
+    decodeText t (render (wireEncode absent [] t exGameState)) = .ok exGameState := by
+  have hw := examples_wellTyped.1
+  have hr := generated_roots.1
+  rw [ht] at hw hr
+  simp only [Option.any_some, Bool.and_eq_true, decide_eq_true_eq] at hw hr
+  exact ⟨decode_encode _ _ wf_generated _ (by decide +kernel) t ht _ hw absent,
+    decode_text_roundtrip _ _ wf_generated _ (by decide +kernel) t ht hr.2 _ hw absent⟩
+
+example (absent : List String → Bool) (t : Ty) (ht : genResolve "BotEvent" = some t) :
+    decode schema csvRuleTable "BotEvent" (wireEncode absent [] t exChallenge) = .ok exChallenge ∧
+    decodeText t (render (wireEncode absent [] t exChallenge)) = .ok exChallenge := by
+  have hw := examples_wellTyped.2
+  have hr := generated_roots.2
+  rw [ht] at hw hr
+  simp only [Option.any_some, Bool.and_eq_true, decide_eq_true_eq] at hw hr
+  exact ⟨decode_encode _ _ wf_generated _ (by decide +kernel) t ht _ hw absent,
+    decode_text_roundtrip _ _ wf_generated _ (by decide +kernel) t ht hr.2 _ hw absent⟩
+
+/-- ... and the quirks stay visible: an escape inside the move string is an error, an unknown rule is a panic,
+a panic wins over trailing garbage -/
+example : (rootTy "state").map (fun t => match decodeText t "{\"type\":\"gameState\",\"moves\":\"e2e4\\u0020e7e5\",\"wtime\":1,\"btime\":1,\"winc\":0,\"binc\":0,\"status\":\"started\"}".toList with
+    | .err => 1 | .panic => 2 | .ok _ => 0) = some 1 := by decide +kernel
+example : (rootTy "event").map (fun t => match decodeText t "{\"type\":\"challenge\",\"challenge\":{\"rules\":\"noAbort,bogus\"}} trailing".toList with
+    | .err => 1 | .panic => 2 | .ok _ => 0) = some 2 := by decide +kernel
 
 
 end Inkayaku.Props.C19
